@@ -655,7 +655,14 @@ class Run:
             if len(created) > 1:
                 self.viol("dup-created:%s" % kind, "task %s has %d created messages" % (tid, len(created)))
             if len(term) > 1:
-                self.viol("dup-terminal:%s:%s" % (kind, "+".join(m["state"] for m in term)), "task %s has %d terminal messages" % (tid, len(term)))
+                cause = "+".join(m["state"] for m in term)
+                r = self.node_attr(t["nid"]) if t is not None else None
+                node = r[1] if r else {}
+                if [m["state"] for m in term] == ["Completed", "Completed"] and any(not (c.get("steps") or []) for c in (node.get("catches") or [])) and \
+                        any(e.get("action") == "Error" and e.get("accepted") and e.get("target") == t["nid"] for e in self.log):
+                    # recorded finding: an error taken by a catch WITHOUT steps completes the task inside the hook and the pending event is emitted as completed again
+                    cause = "completed-twice-by-empty-catch"
+                self.viol("dup-terminal:%s:%s" % (kind, cause), "task %s has %d terminal messages" % (tid, len(term)))
             if created and term and created[0]["_seq"] > term[0]["_seq"]:
                 self.viol("created-after-terminal:%s" % kind, "created message generated after the terminal one for %s" % tid)
             if t is not None:
